@@ -44,11 +44,63 @@ def run(ctx):
     ctx.guard(rank_shape_covers)
     ctx.guard(unflatten_siblings)
     ctx.guard(flatten_ids_flat)
+    ctx.guard(merge_absolute_range)
 
 
 def _walk(stmts):
     from ..cfg import walk_own
     return walk_own(stmts)
+
+
+# -- R5: an absolute-style merge lives in the lower rank's coordinate space -------
+
+def merge_absolute_range(ctx):
+    """Fiber._flattenCoords gives a merged element, for style 'absolute', the
+    coordinate of the *lower* rank.  The merged fiber's active range must
+    then be the lower fibers' (their union, which _mergeRanksHelper
+    accumulates anyway), not the upper fiber's: with the upper range the
+    stored coordinates fall outside the active range whenever the two ranks
+    do not share a coordinate space (a [2, 8] tensor merged absolutely kept
+    coordinates 5..7 under active range (0, 2))."""
+    fc = ctx.method("Fiber", "_flattenCoords")
+    lower = None
+    for n in fc.own_nodes():
+        if isinstance(n, ast.Assign) and isinstance(n.value, ast.Name) and \
+                pat.A("==", "style", "'absolute'") in pat.catoms_of_guards(ctx, fc, n):
+            lower = n.value.id
+    if lower is None or lower != (fc.params[1] if len(fc.params) > 1 else None):
+        ctx.info("C14.R5: style 'absolute' of _flattenCoords is no longer the lower "
+                 "rank's coordinate; the merge-range rule is not applied")
+        return
+    f = ctx.method("Fiber", "_mergeRanksHelper")
+    sets = [n for n in f.own_nodes() if isinstance(n, ast.Assign)
+            and text(n.targets[0]) == "active_range"
+            and pat.A("==", "style", "'absolute'") in pat.catoms_of_guards(ctx, f, n)]
+    ctx.require(sets, "C14.R5: _mergeRanksHelper no longer sets the active range for "
+                "style 'absolute'")
+    # variables that accumulate the sub-fibers' active ranges
+    acc = set()
+    for n in f.own_nodes():
+        if isinstance(n, ast.Assign) and any(
+                isinstance(c, ast.Call) and isinstance(c.func, ast.Attribute)
+                and c.func.attr == "getActive" and text(c.func.value) != f.params[0]
+                for c in ast.walk(n.value)):
+            for t in n.targets:
+                acc |= {x.id for x in ast.walk(t) if isinstance(x, ast.Name)}
+    for n in sets:
+        used = {x.id for x in ast.walk(n.value) if isinstance(x, ast.Name)}
+        upper = "%s.getActive()" % f.params[0] in text(n.value).replace(" ", "")
+        if used and used <= acc and not upper:
+            ctx.ok("C14.R5", f, n, "absolute merge: active range from the lower fibers' ranges",
+                   text_="merge absolute active range")
+        else:
+            ctx.bad("C14.R5", f, n, "for style 'absolute' the merged coordinates are "
+                    "the lower rank's, but the active range is `%s` (%s): stored "
+                    "coordinates can lie outside the active range, so iterActive() "
+                    "of the merged fiber drops them"
+                    % (text(n.value), "the upper fiber's" if upper else
+                       "not the accumulated lower ranges %s" % sorted(acc)),
+                    text_="merge absolute active range")
 
 
 # -- R1: the id of a flattened rank is a flat list ------------------------------
